@@ -653,20 +653,22 @@ def c05():
             emit = sys.argv[i + 1]
     small = export_shapes(3)
     if q:
-        u5 = export_shapes(5)
-        skeys = {json.dumps(f, sort_keys=True) for f in small}
-        rest = [f for f in u5 if json.dumps(f, sort_keys=True) not in skeys]
-        forests = small + ck.rng.sample(rest, 150)
+        u4, u5 = export_shapes(4), export_shapes(5)
+        k3 = {json.dumps(f, sort_keys=True) for f in small}
+        k4 = {json.dumps(f, sort_keys=True) for f in u4}
+        only4 = [f for f in u4 if json.dumps(f, sort_keys=True) not in k3]
+        only5 = [f for f in u5 if json.dumps(f, sort_keys=True) not in k4]
+        forests = small + ck.rng.sample(only4, 330) + ck.rng.sample(only5, 110)
     else:
         forests = export_shapes(5)
-    ck.cov["universe"] = "all %d schemas with <= 3 nodes + %d seeded from the 7932 schemas with <= 5 nodes" % (len(small), 150) if q else \
+    ck.cov["universe"] = "all %d schemas with <= 3 nodes + 330 seeded of the 972 with 4 nodes + 110 seeded of the 6804 with 5 nodes" % len(small) if q else \
         "all %d schemas with <= 5 nodes (depth <= 3, <= 3 children per group)" % len(forests)
     from wfam import build_and_run
     progs = universe_programs(forests, toff_fn=lambda i, f: stable_toff(f))
     ck.cov["programs"] = len(progs)
     for p in progs:
         p.schema = p.forest          # the driver re-derives it by reflection; the judge cross-checks (HARNESS/ColumnsMatchSchema)
-    cap = int(os.environ.get("VERIF_C05_CAP", "40" if q else "300"))
+    cap = int(os.environ.get("VERIF_C05_CAP", "30" if q else "300"))
     recs = export_records([(p.key, p.schema) for p in progs], 2, cap, ck.seed)
     for p in progs:
         rr = recs[p.key]["recs"]
@@ -1017,7 +1019,11 @@ def foreign_case(rng, rows, ncols, comps, force=None):
     rgsplit = force.get("rgsplit") or rng.choice([c for c in comps[n] if len(c) <= 3])
     cols = []
     for ci in range(ncols):
-        pages = [rng.choice(comps[k]) if k else [] for k in rgsplit]
+        pages = [list(rng.choice(comps[k])) if k else [] for k in rgsplit]
+        if rng.random() < 0.3:
+            # a data page without any value is legal: put one at the start, in the middle or at the end of a chunk
+            g = rng.randrange(len(pages))
+            pages[g].insert(rng.randrange(len(pages[g]) + 1), 0)
         cols.append({"codec": force.get("codec") or rng.choice(CODECS), "literal": rng.random() < 0.5, "pages": pages,
                      "seg": force.get("seg") or rng.choice(SEG_POLICIES), "pad": rng.randrange(16), "stats": rng.random() < 0.5,
                      "extras": rng.random() < 0.3})
